@@ -181,9 +181,9 @@ def KnownSite (s : Site) : Prop :=
 
 instance (s : Site) : Decidable (KnownSite s) := by unfold KnownSite; infer_instance
 
-theorem KnownSite.of_fill {r : Bool} {s : Site} (h : FillSite r s) : KnownSite s := by
+theorem KnownSite.of_fill {r re : Bool} {s : Site} (h : FillSite r re s) : KnownSite s := by
   unfold KnownSite
-  rcases h with ((((h | h) | h) | h) | ⟨h, _⟩)
+  rcases h with ((((h | h) | ⟨h, _⟩) | h) | ⟨h, _⟩)
   · exact Or.inr (Or.inr (Or.inr (Or.inr (Or.inl h))))
   · exact Or.inr (Or.inr (Or.inr (Or.inr (Or.inr (Or.inl h)))))
   · exact Or.inr (Or.inr (Or.inr (Or.inl h)))
@@ -194,23 +194,37 @@ theorem sat_lift {α : Type} {K : Site → Prop} {x : FRes α} {Q : α → Prop}
     Sat K (FRes.lift x) Q := by
   cases x <;> exact h
 
-theorem fillSite_ne_root {r : Bool} {s : Site} (h : FillSite r s) : s ≠ .rootEdgeLookup := by
-  rcases h with ((((h | h) | h) | h) | ⟨h, _⟩) <;> (subst h; decide)
+theorem fillSite_ne_root {r re : Bool} {s : Site} (h : FillSite r re s) : s ≠ .rootEdgeLookup := by
+  rcases h with ((((h | h) | ⟨h, _⟩) | h) | ⟨h, _⟩) <;> (subst h; decide)
 
-theorem fillSite_retr {r : Bool} {s : Site} (h : FillSite r s) (hs : s = .retransform) : r = true := by
+theorem fillSite_retr {r re : Bool} {s : Site} (h : FillSite r re s) (hs : s = .retransform) :
+    r = true := by
   subst hs
-  rcases h with ((((h | h) | h) | h) | ⟨_, h⟩)
-  · rcases h with h | h <;> cases h
+  rcases h with ((((h | h) | ⟨h, _⟩) | h) | ⟨_, h⟩)
+  · cases h
   · cases h
   · cases h
   · cases h
   · exact h
 
+theorem fillSite_enum {r re : Bool} {s : Site} (h : FillSite r re s) (hs : s = .enumArgument) :
+    re = true := by
+  subst hs
+  rcases h with ((((h | h) | ⟨_, h⟩) | h) | ⟨h, _⟩)
+  · cases h
+  · cases h
+  · exact h
+  · cases h
+  · cases h
+
 /-- `KnownSite`; N-1 only for a root field called `__typename`; F-7 only when some field carries
-`@fold @transform … @transform`. -/
+`@fold @transform … @transform`; N-2 only when some field has an enum literal among its
+arguments. -/
 def RootKnown (q : Query) (s : Site) : Prop :=
   KnownSite s ∧ (s = .rootEdgeLookup → q.rootField.name = TYPENAME) ∧
-    (s = .retransform → hasRetrNode q.rootField = true)
+    (s = .retransform → hasRetrNode q.rootField = true) ∧
+    (s = .enumArgument →
+      argsHaveEnum q.rootConnection.arguments = true ∨ hasEnumNode q.rootField = true)
 
 theorem errorsInto_sat {K : Site → Prop} {es : List FrontErr} (h : es ≠ []) :
     Sat K (errorsInto es) (fun _ => True) := by
@@ -238,7 +252,7 @@ theorem makeIrForQuery_sat {S : SchemaView} (hS : ValidSchemaView S) {q : Query}
     rw [hv] at hval
     simp only [bind_panic]
     exact ⟨Or.inr (Or.inl hval), fun h => (by rw [hval] at h; cases h),
-      fun h => (by rw [hval] at h; cases h)⟩
+      fun h => (by rw [hval] at h; cases h), fun h => (by rw [hval] at h; cases h)⟩
   | err e => simp only [bind_err]; trivial
   | ok len =>
     simp only [bind_ok]
@@ -262,7 +276,7 @@ theorem makeIrForQuery_sat {S : SchemaView} (hS : ValidSchemaView S) {q : Query}
         intro f hf
         simpa using hS.fieldNames qt hqtmem f hf
       simp only [getEdgeDefinition, hdef, bind_ok, hnone, FRes.lift, bind_panic]
-      exact ⟨Or.inr (Or.inr (Or.inl rfl)), fun _ => htn, fun h => (by cases h)⟩
+      exact ⟨Or.inr (Or.inr (Or.inl rfl)), fun _ => htn, fun h => (by cases h), fun h => (by cases h)⟩
     · rcases hchild.2.2 with h | ⟨fd, hfield, hco⟩
       · exact absurd h htn
       obtain ⟨t', ht', _, _, hfind, hfdmem, hfdname⟩ := field_eq_some hfield
@@ -279,8 +293,8 @@ theorem makeIrForQuery_sat {S : SchemaView} (hS : ValidSchemaView S) {q : Query}
       simp only [FRes.lift, bind_ok]
       refine Sat.bind (sat_lift ((makeEdgeParameters_sat fd q.rootConnection.arguments
         (hS.paramsDistinct qt hqtmem fd hfdmem)).monoK
-        (fun s h => ⟨Or.inr (Or.inr (Or.inr (Or.inl h))), fun h' => (by rw [h] at h'; cases h'),
-          fun h' => (by rw [h] at h'; cases h')⟩)))
+        (fun s h => ⟨Or.inr (Or.inr (Or.inr (Or.inl h.1))), fun h' => (by rw [h.1] at h'; cases h'),
+          fun h' => (by rw [h.1] at h'; cases h'), fun _ => Or.inl h.2⟩)))
         fun paramErrs _ => ?_
       -- the root component
       have hpostvt : S.isVertexType (q.rootField.coercedTo.getD fd.ty.base) = true := by
@@ -303,14 +317,21 @@ theorem makeIrForQuery_sat {S : SchemaView} (hS : ValidSchemaView S) {q : Query}
       refine Sat.bind (sat_lift ((fillNode_sat hS q.rootField 1 fd.ty.base _ st1 CD.empty hinv1 hout1
         hempty (by simp [CD.empty]) (by simp [st1, St.outputsBeginSubcomponent]) hpostvt rfl
         hsubvalid).monoK (fun _ h => ⟨KnownSite.of_fill h, fun h' => absurd h' (fillSite_ne_root h),
-          fun h' => fillSite_retr h h'⟩)))
+          fun h' => fillSite_retr h h', fun h' => Or.inr (fillSite_enum h h')⟩)))
         fun r hr => ?_
       obtain ⟨hpost, _⟩ := hr
       have hout_r : 0 < r.1.outStack.length := Nat.lt_of_lt_of_le hout1 hpost.step.outLen
-      refine Sat.bind (sat_lift ((componentPost_sat hS hpost.step.inv hout_r hpost.cdInv r.2.2).monoK
+      have hflag : EdgesFlag (hasEnumNode q.rootField) r.2.1 := by
+        intro e he
+        rcases hpost.flag e he with h | h
+        · simp [CD.empty] at h
+        · exact h
+      refine Sat.bind (sat_lift ((componentPost_sat hS hpost.step.inv hout_r hpost.cdInv r.2.2
+        hflag).monoK
         (fun _ h => ⟨KnownSite.of_fill (r := false) (Or.inl h),
           fun h' => absurd h' (fillSite_ne_root (r := false) (Or.inl h)),
-          fun h' => absurd (fillSite_retr (r := false) (Or.inl h) h') (by decide)⟩)))
+          fun h' => absurd (fillSite_retr (r := false) (Or.inl h) h') (by decide),
+          fun h' => Or.inr (fillSite_enum (r := false) (Or.inl h) h')⟩)))
         fun c hc => ?_
       obtain ⟨_, _, hc_vs, _, _, _, hc_go, _, hc_err, hc_ok⟩ := hc
       split
@@ -353,7 +374,7 @@ theorem makeIrForQuery_sat {S : SchemaView} (hS : ValidSchemaView S) {q : Query}
             split
             · trivial
             · exact ⟨Or.inr (Or.inr (Or.inr (Or.inr (Or.inr (Or.inr (Or.inr (Or.inr rfl))))))),
-                fun h => (by cases h), fun h => (by cases h)⟩
+                fun h => (by cases h), fun h => (by cases h), fun h => (by cases h)⟩
           · have : (!errors.isEmpty) = true := by simpa using hE
             rw [if_pos this]
             exact errorsInto_sat hE
@@ -410,6 +431,23 @@ theorem compile_retransform {S : SchemaView} (hS : ValidSchemaView S) {doc : Doc
   | err e => rw [hp] at hpanic; cases hpanic
   | ok q =>
     rw [hp] at hpanic
-    exact ⟨q, rfl, ((makeIrForQuery_sat hS (parseDocument_wf hp)).panic_site hpanic).2.2 rfl⟩
+    exact ⟨q, rfl, ((makeIrForQuery_sat hS (parseDocument_wf hp)).panic_site hpanic).2.2.1 rfl⟩
+
+/-- N-2 only if some field of the query has an enum literal among its arguments. -/
+theorem compile_enumArgument {S : SchemaView} (hS : ValidSchemaView S) {doc : Doc}
+    (hpanic : compile S doc = .panic .enumArgument) :
+    ∃ q, parseDocument doc = .ok q ∧
+      (argsHaveEnum q.rootConnection.arguments = true ∨ hasEnumNode q.rootField = true) := by
+  unfold compile at hpanic
+  cases hp : parseDocument doc with
+  | panic s' =>
+    rw [hp] at hpanic
+    cases hpanic
+    have := tryGetQueryRoot_panic (parseDocument_panic hp)
+    rcases this.2 with ⟨h, _⟩ | ⟨h, _⟩ | ⟨h, _⟩ <;> cases h
+  | err e => rw [hp] at hpanic; cases hpanic
+  | ok q =>
+    rw [hp] at hpanic
+    exact ⟨q, rfl, ((makeIrForQuery_sat hS (parseDocument_wf hp)).panic_site hpanic).2.2.2 rfl⟩
 
 end TF.FE
